@@ -138,6 +138,7 @@ long pipe_write(Obj& o, const struct iovec* iov, int cnt, int call) {
 }
 
 long do_readv(int fd, const struct iovec* iov, int cnt, int call) {
+  KIgn kign;
   Obj* o = obj(fd);
   if (!o) { errno = EBADF; return -1; }
   switch (o->kind) {
@@ -174,6 +175,7 @@ long do_readv(int fd, const struct iovec* iov, int cnt, int call) {
   }
 }
 long do_writev(int fd, const struct iovec* iov, int cnt, int call) {
+  KIgn kign;
   Obj* o = obj(fd);
   if (!o) { errno = EBADF; return -1; }
   switch (o->kind) {
@@ -193,6 +195,7 @@ long do_writev(int fd, const struct iovec* iov, int cnt, int call) {
   }
 }
 int do_close(int fd) {
+  KIgn kign;
   if (fd < BASE || fd >= BASE + NFD) { errno = EBADF; return -1; }
   Obj* o = obj(fd);
   if (!o) {
@@ -218,6 +221,7 @@ int do_close(int fd) {
 void uring_reset() __attribute__((weak));
 std::string uring_leaks() __attribute__((weak));
 void reset(const Config& c) {
+  KIgn kign;
   if (&uring_reset) uring_reset();
   for (auto& o : g_tab) o = Obj{};
   for (auto& p : g_pipes) p = Pipe{};
@@ -229,14 +233,16 @@ bool active() { return g_active; }
 bool is_sim(int fd) { return obj(fd) != nullptr; }
 int open_count() { int n = 0; for (auto& o : g_tab) if (o.kind != FREE) ++n; return n; }
 std::string leaks() {
+  KIgn kign;
   std::string s = g_double_close;
   if (&uring_leaks) s += uring_leaks();
   static const char* names[] = {"free", "epoll", "eventfd", "timerfd", "pipe-read", "pipe-write", "io_uring", "file"};
   for (int i = 0; i < NFD; ++i) if (g_tab[i].kind != FREE) s += std::string(names[g_tab[i].kind]) + " descriptor " + std::to_string(BASE + i) + " never closed; ";
   return s;
 }
-int registrations(int ep) { Obj* o = obj(ep); return o && o->kind == EPOLL ? (int)o->regs.size() : -1; }
+int registrations(int ep) { KIgn kign; Obj* o = obj(ep); return o && o->kind == EPOLL ? (int)o->regs.size() : -1; }
 bool registration_points_into(const void* p, size_t n) {
+  KIgn kign;
   for (auto& e : g_tab) if (e.kind == EPOLL) for (auto& r : e.regs) {
     const char* q = static_cast<const char*>(r.data.ptr);
     if (q >= static_cast<const char*>(p) && q < static_cast<const char*>(p) + n) return true;
@@ -260,8 +266,9 @@ std::string dump() {
 long k_read(int fd, void* buf, size_t n) { struct iovec v{buf, n}; return do_readv(fd, &v, 1, C_READ); }
 long k_write(int fd, const void* buf, size_t n) { struct iovec v{const_cast<void*>(buf), n}; return do_writev(fd, &v, 1, C_WRITE); }
 int k_close(int fd) { return do_close(fd); }
-int pipe_bytes(int rfd) { Obj* o = obj(rfd); return o && o->kind == PIPE_R ? (int)g_pipes[o->pipe].buf.size() : -1; }
+int pipe_bytes(int rfd) { KIgn kign; Obj* o = obj(rfd); return o && o->kind == PIPE_R ? (int)g_pipes[o->pipe].buf.size() : -1; }
 int k_pipe2(int fds[2], int flags) {
+  KIgn kign;
   if (g_npipes >= NPIPE) vmcrt::fail("!", "harness", "ksim: too many pipes");
   int pi = g_npipes++;
   g_pipes[pi] = Pipe{}; g_pipes[pi].cap = g_cfg.pipe_capacity; g_pipes[pi].r_open = g_pipes[pi].w_open = true;
@@ -276,15 +283,17 @@ using namespace ksim;
 using namespace ksim::detail;
 
 extern "C" {
-int __wrap_epoll_create(int n) { if (!in_exec()) return __real_epoll_create(n); return alloc(EPOLL); }
-int __wrap_epoll_create1(int f) { if (!in_exec()) return __real_epoll_create1(f); return alloc(EPOLL); }
+int __wrap_epoll_create(int n) { if (!in_exec()) return __real_epoll_create(n); KIgn kign; return alloc(EPOLL); }
+int __wrap_epoll_create1(int f) { if (!in_exec()) return __real_epoll_create1(f); KIgn kign; return alloc(EPOLL); }
 int __wrap_eventfd(unsigned init, int flags) {
   if (!in_exec()) return __real_eventfd(init, flags);
+  KIgn kign;
   int fd = alloc(EVENTFD); g_tab[fd - BASE].counter = init; g_tab[fd - BASE].nonblock = (flags & EFD_NONBLOCK) != 0;
   return fd;
 }
 int __wrap_timerfd_create(int clk, int flags) {
   if (!in_exec()) return __real_timerfd_create(clk, flags);
+  KIgn kign;
   int fd = alloc(TIMERFD); g_tab[fd - BASE].nonblock = (flags & TFD_NONBLOCK) != 0;
   return fd;
 }
@@ -294,6 +303,7 @@ int __wrap_timerfd_settime(int fd, int flags, const struct itimerspec* nv, struc
   Obj* o = obj(fd);
   if (!o) return (fd >= BASE) ? (errno = EBADF, -1) : __real_timerfd_settime(fd, flags, nv, ov);
   if (o->kind != TIMERFD) { errno = EINVAL; return -1; }
+  KIgn kign;
   step(o);
   if (fault(C_TIMERFD_SETTIME)) { wrote(o, 0xE0 + errno); return -1; }
   long long t = (long long)nv->it_value.tv_sec * 1000000000LL + nv->it_value.tv_nsec;
@@ -310,6 +320,7 @@ int __wrap_epoll_ctl(int ep, int op, int fd, struct epoll_event* ev) {
   Obj* e = obj(ep);
   if (!e) return (ep >= BASE) ? (errno = EBADF, -1) : __real_epoll_ctl(ep, op, fd, ev);
   if (e->kind != EPOLL) { errno = EINVAL; return -1; }
+  KIgn kign;
   step(e);
   if (fault(C_EPOLL_CTL)) { wrote(e, 0xE0 + errno); return -1; }
   Obj* t = obj(fd);
@@ -333,6 +344,7 @@ int __wrap_epoll_wait(int ep, struct epoll_event* evs, int maxev, int timeout) {
   Obj* e = obj(ep);
   if (!e) return (ep >= BASE) ? (errno = EBADF, -1) : __real_epoll_wait(ep, evs, maxev, timeout);
   if (e->kind != EPOLL) { errno = EINVAL; return -1; }
+  KIgn kign;
   step(e);
   if (fault(C_EPOLL_WAIT)) { wrote(e, 0xE0 + errno); return -1; }
   if (count_ready(*e) == 0 && timeout != 0) {
@@ -350,6 +362,7 @@ int __wrap_epoll_wait(int ep, struct epoll_event* evs, int maxev, int timeout) {
   if (g_cfg.reverse_ready_order) for (size_t i = e->regs.size(); i-- > 0;) take(e->regs[i]);
   else for (auto& r : e->regs) take(r);
   // the answer depends on every registered descriptor's state
+  for (auto& r : e->regs) { Obj* t = obj(r.fd); if (t) k_acquire(t->kind == PIPE_R || t->kind == PIPE_W ? (const void*)&g_pipes[t->pipe] : (const void*)t); }
   for (auto& r : e->regs) { Obj* t = obj(r.fd); if (t) vmcrt::observed(t->kind == PIPE_R || t->kind == PIPE_W ? (const void*)&g_pipes[t->pipe] : (const void*)t, vmcrt::K_RMW, reported(r), true); }
   wrote(e, 0x900 + h);
   return n;
